@@ -283,7 +283,9 @@ class P(Prop):
                 "neighborhood (cell/point/segment/track; unit >= 0 and the incremental unit = -1 search), "
                 "groundDistanceToUnits, __addCellValuesInTAB of core/spatial_index.py; cartesienne, __eval, "
                 "isSegmentIntersects of util/geometry.py; TrackCollection/Network bbox as min/max of the vertices")
-    trusted = ["mode flt: the Float instantiation of the model reproduces Python's doubles operation by operation; "
+    trusted = ["correspondence relation: implementation ⊇ model on every returned list of features / cells and on cell contents (extras are permitted by the property; "
+               "the theorems show the model omits nothing, so any superset omits nothing), equality on extent, cell size, units, None-ness and exceptions",
+               "mode flt: the Float instantiation of the model reproduces Python's doubles operation by operation; "
                "rounding is outside the theorems, the flt-mode oracle keeps a guard of 1e-7 cell around cell borders"]
     rule = ("exhaustive: every segment between points of a half-integer lattice through __cellsCrossSegment, every 2-vertex track of a "
             "small lattice indexed and queried at every lattice point of the extent; random: 1-3 features (tracks or network edges) of 2-4 "
@@ -472,11 +474,31 @@ class P(Prop):
             else:
                 mq.append(a)
         mo["q"] = mq
-        for key in ("info", "grid"):
-            if not close(io[key], mo[key], self.rel_tol):
-                return "%s: impl=%s model=%s" % (key, str(io[key])[:300], str(mo[key])[:300])
+        # The property permits extra candidates and the theorems say the MODEL omits nothing, so what ties the
+        # implementation to them is "implementation ⊇ model" on every list of features / cells (a superset of a
+        # complete answer is complete); scalars, None-ness and exceptions must be equal. The unit = -1 searches are
+        # not monotone in the grid contents: they are compared for equality whenever the two grids are equal.
+        if not close(io["info"], mo["info"], self.rel_tol):
+            return "info: impl=%s model=%s" % (str(io["info"])[:300], str(mo["info"])[:300])
+        for key, vals in mo["grid"].items():
+            miss = set(vals) - set(io["grid"].get(key, []))
+            if miss:
+                return "grid cell %s: the model registers %s, the implementation only %s" % (key, vals, io["grid"].get(key, []))
+        same_grid = io["grid"] == mo["grid"]
+
+        def sub(b, a):      # model answer b, implementation answer a
+            if isinstance(b, list) and isinstance(a, list):
+                return all(x in a for x in b)
+            return close(a, b, self.rel_tol)
         for n, (q, a, b) in enumerate(zip(case["queries"], io["q"], mo["q"])):
-            if not close(a, b, self.rel_tol):
+            search = q[0] in ("ncell", "npt", "nseg", "ntrk") and (q[-1] if q[0] != "ntrk" else q[1]) < 0
+            if search:
+                ok = close(a, b, self.rel_tol) if same_grid else True
+            elif isinstance(a, dict) and isinstance(b, dict) and "u" in a and "u" in b:
+                ok = a["u"] == b["u"] and sub(b["res"], a["res"])
+            else:
+                ok = sub(b, a)
+            if not ok:
                 return "query %d %s: impl=%s model=%s" % (n, q, str(a)[:200], str(b)[:200])
         return None
 
@@ -788,6 +810,8 @@ class P(Prop):
         tw = exact_twin(case)
         if tw in (None, "zerodiv"):
             return case
+        if res is not None and (tw[4] * tw[5] > 4000 or max(tw[4], tw[5]) > 400):
+            return self.float_case(rng, tier)      # keep the quadratic loops of the code affordable
         xmin, xmax, ymin, ymax = (float(v) for v in tw[:4])
         P = lambda: [round(rng.uniform(xmin, xmax), 3), round(rng.uniform(ymin, ymax), 3)]
         size = max(xmax - xmin, ymax - ymin)
